@@ -3,6 +3,7 @@ from __future__ import annotations
 
 import hashlib
 import json
+import os
 import random
 import time
 import traceback
@@ -76,6 +77,9 @@ class Ctx:
         n = self._viol_count.get(k, 0)
         self._viol_count[k] = n + 1
         if n < self.MAX_VIOL_PER_SIG:
+            # the hash seed of this interpreter is part of what replays the execution (set / str-keyed dict order)
+            extra = dict(extra) if isinstance(extra, dict) else ({} if extra is None else {'value': extra})
+            extra.setdefault('hashseed', os.environ.get('PYTHONHASHSEED', '0'))
             self.violations.append({'signature': sig, 'message': str(message)[:2000], 'replay': replay,
                                     'extra': extra})
 
